@@ -22,6 +22,9 @@ def run(chk):
     chk.floor('call sites taking a version', n, 100)
     from . import c06
     c06.transparency(chk, c, 'C01-E')
+    chk.rule('C01-R', 'field repetitions are positional: every piece of a split on the repetition separator is parsed and attached')
+    from . import c03
+    c03.repetition_pieces(chk, c, 'C01-R')
     chk.assume('datatype objects re-encode their own text (TM/DTM %f slicing, Decimal printing, strftime) -- run-time values, declined')
     chk.assume('trailing-empty trimming versus the canonical form is value dependent, declined')
     chk.exhaustive = True
